@@ -8,12 +8,16 @@ pub mod c20;
 pub mod codec;
 pub mod connmon;
 pub mod matrix;
+pub mod twins;
 
 pub fn dispatch(ctx: &Ctx) -> Option<Report> {
     Some(match ctx.prop.as_str() {
         "C02" => codec::run_c02(ctx),
         "C03" => codec::run_c03(ctx),
         "C04" => c04::run(ctx),
+        "C09" => twins::run_c09(ctx),
+        "C10" => twins::run_c10(ctx),
+        "C16" => twins::run_c16(ctx),
         "C11" => matrix::run_c11(ctx),
         "C17" => matrix::run_c17(ctx),
         "C18" => c18::run(ctx),
